@@ -252,20 +252,21 @@ func prepare(prop string) (worker string) {
 // changed there) the canary is skipped; if it applies and nothing is reported the check has lost its
 // teeth and ends as harness trouble.
 type canarySpec struct {
-	file string // overlay-relative
-	old  string
-	new  string
-	runs int64
-	what string
+	after string // the edit is applied to the first occurrence of old after this anchor (the function it is meant for)
+	file  string // overlay-relative
+	old   string
+	new   string
+	runs  int64
+	what  string
 }
 
 var canaries = map[string][]canarySpec{
-	"C11": {{file: "network/netbios/nbt/nbt.go", old: "_, err = io.ReadFull(n.conn, buffer)", new: "_, err = n.conn.Read(buffer)", runs: 4000,
+	"C11": {{after: ") Receive(", file: "network/netbios/nbt/nbt.go", old: "_, err = io.ReadFull(n.conn, buffer)", new: "_, err = n.conn.Read(buffer)", runs: 4000,
 		what: "body read with a single Read instead of io.ReadFull"}},
-	"C17": {{file: "network/netbios/nbtns/nbtns.go", old: "n.mu.RLock()", new: "_ = 0", runs: 8000, what: "QueryName without its read lock"},
-		{file: "network/netbios/nbtns/nbtns.go", old: "defer n.mu.RUnlock()", new: "_ = 0", runs: 0}},
-	"C18": {{file: "network/netbios/nbtns/udp_server.go", old: "copy(data, buf[:n])", new: "data = buf[:n]", runs: 8000, what: "handler goroutines share the receive buffer again"},
-		{file: "network/netbios/nbtns/server.go", old: "copy(data, buf[:n])", new: "data = buf[:n]", runs: 0}},
+	"C17": {{after: ") QueryName(", file: "network/netbios/nbtns/nbtns.go", old: "n.mu.RLock()", new: "_ = 0", runs: 8000, what: "QueryName without its read lock"},
+		{after: ") QueryName(", file: "network/netbios/nbtns/nbtns.go", old: "defer n.mu.RUnlock()", new: "_ = 0", runs: 0}},
+	"C18": {{after: ") serve(", file: "network/netbios/nbtns/udp_server.go", old: "copy(data, buf[:n])", new: "data = buf[:n]", runs: 8000, what: "handler goroutines share the receive buffer again"},
+		{after: ") serve(", file: "network/netbios/nbtns/server.go", old: "copy(data, buf[:n])", new: "data = buf[:n]", runs: 0}},
 }
 
 func runCanary(prop string, seed uint64, nw int) map[string]any {
@@ -288,10 +289,21 @@ func runCanary(prop string, seed uint64, nw int) map[string]any {
 	for _, sp := range specs {
 		f := filepath.Join(dst, sp.file)
 		b, err := os.ReadFile(f)
-		if err != nil || !bytes.Contains(b, []byte(sp.old)) {
-			return map[string]any{"status": "skipped", "reason": "the pattern the canary edits is not present in this tree: " + sp.old}
+		at := -1
+		if err == nil {
+			if i := bytes.Index(b, []byte(sp.after)); i >= 0 {
+				if j := bytes.Index(b[i:], []byte(sp.old)); j >= 0 {
+					// the edit must stay inside the function the anchor names
+					if k := bytes.Index(b[i:], []byte("\nfunc ")); k < 0 || j < k {
+						at = i + j
+					}
+				}
+			}
 		}
-		b = bytes.Replace(b, []byte(sp.old), []byte(sp.new), 1)
+		if at < 0 {
+			return map[string]any{"status": "skipped", "reason": "the code the canary edits is not present in this form in this tree: " + sp.old}
+		}
+		b = append(append(append([]byte(nil), b[:at]...), []byte(sp.new)...), b[at+len(sp.old):]...)
 		os.WriteFile(f, b, 0o644)
 		if sp.runs > runs {
 			runs = sp.runs
@@ -332,7 +344,9 @@ func runCanary(prop string, seed uint64, nw int) map[string]any {
 	}
 	wg.Wait()
 	if len(found) == 0 {
-		trouble("sensitivity canary failed: %q was applied to a copy of the overlay and %d runs reported no violation", specs[0].what, total)
+		// judged by the caller: fatal (exit 2) only if the check itself found nothing either
+		fmt.Printf("canary: %q applied to a scratch copy of the overlay -> NOT detected in %d runs\n", specs[0].what, total)
+		return map[string]any{"status": "not detected", "edit": specs[0].what, "runs": total}
 	}
 	fmt.Printf("canary: %q applied to a scratch copy of the overlay -> detected (%v in %d runs)\n", specs[0].what, found, total)
 	return map[string]any{"status": "detected", "edit": specs[0].what, "runs": total, "violations_by_class": found}
@@ -1122,6 +1136,10 @@ func main() {
 	raw, _ := json.MarshalIndent(ev, "", " ")
 	if err := os.WriteFile(filepath.Join(root, "evidence", prop+".json"), raw, 0o644); err != nil {
 		trouble("%v", err)
+	}
+	if exit == 0 && canaryRes["status"] == "not detected" {
+		fmt.Printf("HARNESS-TROUBLE: sensitivity canary failed and the check found nothing: the machinery may have lost its teeth on this tree\n")
+		exit = 2
 	}
 	if exit == 0 && len(unconfirmed) > 0 {
 		fmt.Printf("HARNESS-TROUBLE: %d race report(s) could not be confirmed by replay and nothing else was found: %v\n", len(unconfirmed), unconfirmed)
